@@ -9,7 +9,7 @@ SPEC = {
     'bounds': {'quick': 'tables of <= 3 hits (<= 2 sets, 2 ceilometers), any heights and times, percentile in [0,100], '
                         'look-back in (0,100], MAX_HITS_OKTA0 >= 0, exclusion lists [], [a], [a,zz], [a,b]; look-back count in exact binary64 for integer percentages and 1..64 hits; whole metarize() '
                         'for <= 2 hits; height coding for every binary64 in [0,1e5)',
-               'thorough': 'tables of <= 4 hits (exclusion lists [] and [a] at 4 hits); look-back count for 1..200 hits; whole metarize() for <= 3 hits'},
+               'thorough': 'tables of <= 4 hits (no exclusion list at 4 hits); look-back count for 1..200 hits; whole metarize() for <= 3 hits'},
     'outside': 'fluffiness finite and non-negative (LOWESS is a stub whose contract says "finite": not claimed); rounding '
                'inside the percentile interpolation (real-number semantics); the percentile clause is asserted when the '
                'selected hits have pairwise distinct times and the look-back keeps at least one hit',
@@ -67,7 +67,7 @@ def k_lookback(E, n0, n1):
 HARNESSES = [
     H('H-base', h_base, quick=[(1, 1, 'layers', 0), (2, 2, 'layers', 0), (2, 2, 'layers', 1), (3, 2, 'layers', 0),
                                (3, 2, 'layers', 1), (3, 2, 'layers', 2), (3, 2, 'layers', 3), (2, 2, 'slices', 1), (2, 2, 'groups', 1)],
-      thorough=[(n, 2, 'layers', x) for n in (1, 2, 3) for x in (0, 1, 2, 3)] + [(4, 2, 'layers', 0), (4, 2, 'layers', 1), (3, 2, 'slices', 1), (3, 2, 'groups', 1)],
+      thorough=[(n, 2, 'layers', x) for n in (1, 2, 3) for x in (0, 1, 2, 3)] + [(4, 2, 'layers', 0), (3, 2, 'slices', 1), (3, 2, 'groups', 1)],
       float_model='R',
       cover=['exclusion applied', 'exclusion fall-back', 'look-back keeps a strict subset'],
       assumptions=['statsmodels LOWESS replaced by a stub returning arbitrary finite values'],
